@@ -311,6 +311,126 @@ func TestSharedSubvalues(t *testing.T) {
 	evid.Exhaustive("leaf kind x shape with one collection on two paths x {strfmt, printf, cast}", n)
 }
 
+// TestEditedCollectionSubjects: a text builtin applied to a list/map variable works from the variable's contents at the
+// moment of the call: applied, the collection edited in place (element assignment, compound assignment, through a
+// second name, in a loop), applied again.
+func TestEditedCollectionSubjects(t *testing.T) {
+	set1 := func(l, r *gen.Node) *gen.Node { return gen.NAssign("=", []*gen.Node{l}, []*gen.Node{r}) }
+	inits := []struct {
+		name string
+		mk   func() *gen.Node
+		key  func() *gen.Node
+	}{
+		{"list", func() *gen.Node { return gen.NList(str(" x%20a "), str("y"), gen.NInt(3)) }, func() *gen.Node { return gen.NInt(0) }},
+		{"list-last", func() *gen.Node { return gen.NList(str("p"), str("q")) }, func() *gen.Node { return gen.NInt(-1) }},
+		{"map", func() *gen.Node { return gen.NMap(str("k"), str(" v%41 "), str("n"), gen.NInt(1)) }, func() *gen.Node { return str("k") }},
+		{"map-new-key", func() *gen.Node { return gen.NMap(str("n"), gen.NInt(1)) }, func() *gen.Node { return str("k") }},
+		{"nested", func() *gen.Node { return gen.NMap(str("k"), gen.NList(str("in")), str("n"), gen.NInt(1)) }, func() *gen.Node { return str("k") }},
+	}
+	texts := []struct {
+		name string
+		mk   func(v string) *gen.Node
+	}{
+		{"uppercase", func(v string) *gen.Node { return gen.NCall("uppercase", id(v)) }},
+		{"lowercase", func(v string) *gen.Node { return gen.NCall("lowercase", id(v)) }},
+		{"trim", func(v string) *gen.Node { return gen.NCall("trim", id(v)) }},
+		{"replace", func(v string) *gen.Node { return gen.NCall("replace", id(v), str("[a-z]"), str("_")) }},
+		{"url_decode", func(v string) *gen.Node { return gen.NCall("url_decode", id(v)) }},
+	}
+	edits := []struct {
+		name string
+		mk   func(key func() *gen.Node) []*gen.Node
+	}{
+		{"element", func(key func() *gen.Node) []*gen.Node { return []*gen.Node{set1(gen.NIndex(id("a"), key()), str("zed%42"))} }},
+		{"compound", func(key func() *gen.Node) []*gen.Node {
+			return []*gen.Node{set1(gen.NIndex(id("a"), key()), str("q")), gen.NAssign("+=", []*gen.Node{gen.NIndex(id("a"), key())}, []*gen.Node{str("more")})}
+		}},
+		{"second-name", func(key func() *gen.Node) []*gen.Node {
+			return []*gen.Node{gen.NSet("b", id("a")), set1(gen.NIndex(id("b"), key()), str("via b"))}
+		}},
+		{"in-loop", func(key func() *gen.Node) []*gen.Node {
+			return []*gen.Node{gen.NForIn("i", gen.NList(str("one"), str("two")), []*gen.Node{set1(gen.NIndex(id("a"), key()), id("i"))})}
+		}},
+		{"whole", func(key func() *gen.Node) []*gen.Node { return []*gen.Node{gen.NSet("a", gen.NList(str("fresh")))} }},
+		{"none", func(key func() *gen.Node) []*gen.Node { return nil }},
+	}
+	n := 0
+	for _, in := range inits {
+		for t1i, t1 := range texts {
+			for t2i, t2 := range texts {
+				if t1i != t2i && (t1i+t2i)%2 == 0 && t1i != 0 {
+					continue // every builtin twice, every pair with uppercase, half of the remaining pairs
+				}
+				for _, e := range edits {
+					prog := []*gen.Node{gen.NSet("a", in.mk()), t1.mk("a"), gen.NCall("probe", str("first"), gen.NCall("get_key", str("a")), id("a"))}
+					prog = append(prog, e.mk(in.key)...)
+					prog = append(prog, t2.mk("a"), gen.NCall("probe", str("second"), gen.NCall("get_key", str("a")), id("a"), id("keep")))
+					c := sem.NewCase(gen.FixAll(prog))
+					c.Fields = map[string]any{"keep": int64(42)}
+					judge(t, "edited-collection", c, "edited/"+in.name+"/"+t1.name+"/"+e.name+"/"+t2.name, true, "edited-collection-subject")
+					n++
+				}
+			}
+		}
+	}
+	evid.Exhaustive("collection variable x text builtin x in-place edit x text builtin again", n)
+}
+
+// TestAbsentKeyResults: get_key of a key the point lacks has the value nil; every consumer treats it as nil (an existing
+// tag written with it is blanked, not removed; a variable holding it is an existing subject).
+func TestAbsentKeyResults(t *testing.T) {
+	absent := func() *gen.Node { return gen.NCall("get_key", id("nosuch")) }
+	uses := []struct {
+		name string
+		mk   func() []*gen.Node
+	}{
+		{"add_key-tag", func() []*gen.Node { return []*gen.Node{gen.NCall("add_key", id("host"), absent())} }},
+		{"add_key-field", func() []*gen.Node { return []*gen.Node{gen.NCall("add_key", id("other"), absent())} }},
+		{"add_key-new", func() []*gen.Node { return []*gen.Node{gen.NCall("add_key", id("fresh"), absent())} }},
+		{"add_key-var-tag", func() []*gen.Node { return []*gen.Node{gen.NSet("host", absent()), gen.NCall("add_key", id("host"))} }},
+		{"set_tag", func() []*gen.Node { return []*gen.Node{gen.NSet("x", absent()), gen.NCall("set_tag", id("host"), id("x"))} }},
+		{"set_tag-var", func() []*gen.Node { return []*gen.Node{gen.NSet("x", absent()), gen.NCall("set_tag", id("x"))} }},
+		{"uppercase-var", func() []*gen.Node { return []*gen.Node{gen.NSet("x", absent()), gen.NCall("uppercase", id("x"))} }},
+		{"trim-var", func() []*gen.Node { return []*gen.Node{gen.NSet("x", absent()), gen.NCall("trim", id("x"))} }},
+		{"replace-var", func() []*gen.Node { return []*gen.Node{gen.NSet("x", absent()), gen.NCall("replace", id("x"), str("a"), str("b"))} }},
+		{"url_decode-var", func() []*gen.Node { return []*gen.Node{gen.NSet("x", absent()), gen.NCall("url_decode", id("x"))} }},
+		{"lowercase-var-tag", func() []*gen.Node { return []*gen.Node{gen.NSet("host", absent()), gen.NCall("lowercase", id("host"))} }},
+		{"cast-var", func() []*gen.Node { return []*gen.Node{gen.NSet("x", absent()), gen.NCall("cast", id("x"), str("str")), gen.NCall("probe", str("x"), id("x"))} }},
+		{"strfmt", func() []*gen.Node { return []*gen.Node{gen.NCall("strfmt", id("host"), str("%v|%s"), absent(), absent())} }},
+		{"compare", func() []*gen.Node {
+			return []*gen.Node{gen.NCall("probe", str("cmp"), gen.NBin("==", absent(), gen.NNil()), gen.NBin("!=", absent(), gen.NNil()), gen.NCall("len", absent()))}
+		}},
+		{"in-list", func() []*gen.Node {
+			return []*gen.Node{gen.NSet("l", gen.NList(absent(), gen.NInt(1))), gen.NCall("probe", str("l"), id("l")), gen.NCall("add_key", id("host"), gen.NIndex(id("l"), gen.NInt(0)))}
+		}},
+		{"exists-after-delete", func() []*gen.Node {
+			return []*gen.Node{gen.NCall("drop_key", id("other")), gen.NCall("add_key", id("host"), gen.NCall("get_key", id("other")))}
+		}},
+		{"variable-of-that-name", func() []*gen.Node {
+			return []*gen.Node{gen.NSet("nosuch", str("a variable")), gen.NCall("add_key", id("host"), absent())}
+		}},
+	}
+	n := 0
+	for _, u := range uses {
+		for sit := 0; sit < 3; sit++ {
+			prog := append(u.mk(), gen.NCall("probe", str("after"), gen.NCall("get_key", str("host")), gen.NCall("get_key", str("x")), id("keep")))
+			c := sem.NewCase(gen.FixAll(prog))
+			c.Fields = map[string]any{"other": "other value", "keep": int64(42)}
+			c.Tags = map[string]string{"host": "h1", "keeptag": "kt"}
+			switch sit {
+			case 1:
+				delete(c.Tags, "host")
+				c.Fields["host"] = "a field"
+			case 2:
+				c.Tags["x"] = "x as a tag"
+			}
+			judge(t, "absent-key-result", c, fmt.Sprintf("absentkey/%s/%d", u.name, sit), true, "absent-key-result")
+			n++
+		}
+	}
+	evid.Exhaustive("consumer of get_key(absent key) x where the destination lives", n)
+}
+
 // TestRenameAlias: `_` is another spelling of message in every argument of rename: renaming the key onto itself under
 // either spelling changes nothing; renaming between `_` and other keys moves message.
 func TestRenameAlias(t *testing.T) {
